@@ -143,6 +143,10 @@ func genC10(rng *rand.Rand, n int, thorough bool, emit func(string)) {
 		if rng.Intn(10) == 0 {
 			hdr = "h:" + hxs(pick(rng, "init", "", "9", "a b"))
 		}
+		if rng.Intn(8) == 0 {
+			// a caller-provided buffer, large enough for every stream of the generators (the limit is C20's subject)
+			hdr += fmt.Sprintf("+b:%d:%d", pick(rng, 0, 64, 4096, 16384), 1<<20)
+		}
 		var hist []string
 		na := 1 + rng.Intn(8)
 		if thorough && rng.Intn(10) == 0 {
